@@ -92,6 +92,25 @@ CLI_TIERS = {
 }
 
 
+# named deviations of the mechanism in XsStore (constant Dev) and the invariant TLC must report for each
+MODEL_DEVIATIONS = [("reg-before-refusal", "INV_Dump"), ("import-overwrites", "INV_Read")]
+
+
+def check_model_deviations(d):
+    """vacuity guard: with a deviation switched on, TLC must report a violated invariant"""
+    res = []
+    base = open(os.path.join(SPEC, "MC_store_quick_ctx.cfg")).read()
+    for dev, inv in MODEL_DEVIATIONS:
+        cfgp = os.path.join(d, f"dev_{dev}.cfg")
+        open(cfgp, "w").write(base.replace('Dev = "none"', f'Dev = "{dev}"'))
+        out, _, _, _ = tlc("MCXsStore.tla", cfgp, workers=4, timeout=900)
+        caught = "is violated" in out
+        res.append({"deviation": dev, "expected": inv, "caught": caught})
+        if not caught:
+            raise ToolError(f"model deviation {dev} not rejected: the invariants of XsStore are vacuous for it")
+    return res
+
+
 def run(tier, seed, regress=True, http=False, cli=False, nu=False):
     cfg = (CLI_TIERS if cli else HTTP_TIERS if http or nu else TIERS)[tier]
     t0 = time.time()
@@ -110,6 +129,11 @@ def run(tier, seed, regress=True, http=False, cli=False, nu=False):
     res["mc"] = mcs
     if tier == "thorough" and not http:
         res["inductive"] = apalache_inductive()
+        dd = scratch("store-dev")
+        try:
+            res["model_deviations"] = check_model_deviations(dd)
+        finally:
+            shutil.rmtree(dd, ignore_errors=True)
     # (2) behaviours: TLC-generated + seeded random + committed regressions
     d = scratch(gname)
     try:
